@@ -80,7 +80,9 @@ func checkC04(r *core.Run) {
 		r.Anchor("C04.decision", nil, "deferred closure of WithGlobalTx that calls the second phase, and a named error result")
 		return
 	}
-	// the dispatcher: the function that calls both GlobalTransactionManager.Commit and .Rollback itself
+	// the dispatcher: the function that calls both GlobalTransactionManager.Commit and .Rollback itself — or, taking
+	// a boolean, reaches both through helpers / function values it selects between (commit and rollback as the
+	// `send` of an action chosen by the flag); of several nested ones the innermost
 	var p2fn *core.FuncInfo
 	for _, f := range w.SortedFuncs() {
 		if f.Pkg.PkgPath != pTM || w.IsTestFile(f.Decl.Pos()) {
@@ -93,6 +95,33 @@ func checkC04(r *core.Run) {
 		}
 		if c && rb {
 			p2fn = f
+		}
+	}
+	if p2fn == nil {
+		reachC := newReach(w, 2, func(f *types.Func) bool { return f == commitM })
+		reachR := newReach(w, 2, func(f *types.Func) bool { return f == rollbackM })
+		var cands []*core.FuncInfo
+		for _, f := range w.SortedFuncs() {
+			if f.Pkg.PkgPath != pTM || w.IsTestFile(f.Decl.Pos()) || f == with || f.Obj == commitM || f.Obj == rollbackM {
+				continue
+			}
+			hasBool, errRes := false, false
+			sig := f.Obj.Type().(*types.Signature)
+			for i := 0; i < sig.Params().Len(); i++ {
+				if b, ok := sig.Params().At(i).Type().Underlying().(*types.Basic); ok && b.Kind() == types.Bool {
+					hasBool = true
+				}
+			}
+			if _, ok := core.HasErrorResult(sig); ok && sig.Results().Len() == 1 {
+				errRes = true
+			}
+			if hasBool && errRes && reachC.Hits(f.Obj) && reachR.Hits(f.Obj) {
+				cands = append(cands, f)
+			}
+		}
+		// the outermost: the one no other candidate calls... a chooser helper returns the action, not an error
+		if len(cands) == 1 {
+			p2fn = cands[0]
 		}
 	}
 	if p2fn == nil {
@@ -195,22 +224,111 @@ func checkC04(r *core.Run) {
 		arg := resolveLocalBoolIn(uinfo, u.body, p2call.Args[flagIdx])
 		nilOf := map[types.Object]bool{}
 		okShape := conjunctsAllNilTests(uinfo, arg, nilOf)
+		decided := okShape && nilOf[u.recObj] && nilOf[u.errObj]
+		if !decided && u.fn == nil {
+			// not written as a conjunction of nil tests in place (the outcome may be kept in an object with a
+			// method that answers "did the business succeed"): the deciding closure is evaluated for the three
+			// cases — nothing recovered and no business error, a recovered panic, a business error — and the flag
+			// it hands to the second phase must be true, false, false
+			var errLoc ast.Expr
+			var bizParam types.Object
+			for _, p := range paramObjs(with) {
+				if _, ok := p.Type().Underlying().(*types.Signature); ok {
+					bizParam = p
+				}
+			}
+			ast.Inspect(with.Decl.Body, func(n ast.Node) bool {
+				if as, ok := n.(*ast.AssignStmt); ok && len(as.Lhs) == 1 && len(as.Rhs) == 1 {
+					if c, ok := ast.Unparen(as.Rhs[0]).(*ast.CallExpr); ok {
+						if id, ok := ast.Unparen(c.Fun).(*ast.Ident); ok && bizParam != nil && info.Uses[id] == bizParam {
+							errLoc = as.Lhs[0]
+						}
+					}
+				}
+				return true
+			})
+			eval := func(recNonNil, errNonNil bool) int8 {
+				isRec := func(pkg *packages.Package, call *ast.CallExpr) bool {
+					id, ok := call.Fun.(*ast.Ident)
+					if !ok || id.Name != "recover" {
+						return false
+					}
+					_, isB := pkg.TypesInfo.Uses[id].(*types.Builtin)
+					return isB
+				}
+				sp := &flow.Spec{W: w, Depth: 0, Inline: 3, Classify: func(pkg *packages.Package, call *ast.CallExpr, callee *types.Func) []flow.Tag {
+					if call == p2call {
+						return []flow.Tag{"p2"}
+					}
+					return nil
+				}}
+				if recNonNil {
+					sp.AssumeNonNil = isRec
+				} else {
+					sp.AssumeNil = isRec
+				}
+				res := sp.AnalyzeLitSeed(with.Pkg, p2lit, func(st *flow.State) {
+					if errLoc != nil {
+						if o := sp.ObjOfExpr(info, errLoc); o != nil {
+							st.SetNil(o, !errNonNil)
+						}
+					}
+				})
+				var v int8 = -1
+				for _, cp := range res.Calls {
+					if !inSet("p2", cp.Tags...) {
+						continue
+					}
+					b := cp.ArgBool[flagIdx]
+					if b == 0 || (v != -1 && v != b) {
+						return 0
+					}
+					v = b
+				}
+				if v == -1 {
+					return 0
+				}
+				return v
+			}
+			decided = errLoc != nil && eval(false, false) == 1 && eval(true, false) == 2 && eval(false, true) == 2
+		}
 		r.Sites++
-		r.Check(okShape && nilOf[u.recObj] && nilOf[u.errObj], "C04.decision", keyW+" : commit iff no panic and no business error", w.Pos(p2call.Pos()),
+		r.Check(decided, "C04.decision", keyW+" : commit iff no panic and no business error", w.Pos(p2call.Pos()),
 			"decision = (recover()==nil) && (business error==nil)", "the commit/rollback decision '"+core.ExprString(arg)+"' is not the conjunction of 'no panic' and 'no business error': a failed or panicking callback could be committed")
 	}
 	// ---- second-phase function: commit / rollback exclusive, under the launcher guard
 	{
 		flag := paramObjs(p2fn)[flagIdx]
-		sp := &flow.Spec{W: w, Depth: 0, CondTags: launcherCond, Classify: func(pkg *packages.Package, call *ast.CallExpr, callee *types.Func) []flow.Tag {
-			switch callee {
-			case commitM:
-				return []flow.Tag{"commit"}
-			case rollbackM:
-				return []flow.Tag{"rollback"}
-			}
-			return nil
-		}}
+		var sp *flow.Spec
+		sp = &flow.Spec{W: w, Depth: 0, Fork: true, Split: []flow.Tag{"flag:true", "flag:false"},
+			// (a helper may turn the flag into the action to run: the function continues per way out of it)
+			CondTags: func(pkg *packages.Package, cond ast.Expr, branch bool) []flow.Tag {
+				out := launcherCond(pkg, cond, branch)
+				c := ast.Unparen(cond)
+				neg := false
+				if u, ok := c.(*ast.UnaryExpr); ok && u.Op == token.NOT {
+					c, neg = ast.Unparen(u.X), true
+				}
+				if id, ok := c.(*ast.Ident); ok {
+					if o := pkg.TypesInfo.Uses[id]; o != nil && sp.RootOf(o) == flag {
+						if branch != neg {
+							out = append(out, "flag:true")
+						} else {
+							out = append(out, "flag:false")
+						}
+					}
+				}
+				return out
+			},
+			Classify: func(pkg *packages.Package, call *ast.CallExpr, callee *types.Func) []flow.Tag {
+				switch callee {
+				case commitM:
+					return []flow.Tag{"commit"}
+				case rollbackM:
+					return []flow.Tag{"rollback"}
+				}
+				return nil
+			}}
 		res := sp.Analyze(p2fn)
 		nc, nr := 0, 0
 		for _, cp := range res.Calls {
